@@ -98,6 +98,9 @@ def decide(prop, tier, seed, jobs, t0):
     known = [k for k in load_known() if prop in k["property"]]
     tasks = runner.tasks_for(props=[prop])
     results = runner.run_all(tasks, jobs=jobs) if tasks else []
+    if info.get("frames"):
+        from . import frames
+        results = results + frames.run(prop)
     ground = run_ground(prop, tier)
     bounded = []
     if tier == "thorough" or info.get("bounded_in_quick"):
@@ -279,8 +282,10 @@ def decide(prop, tier, seed, jobs, t0):
                         prop, path, o["id"], json.dumps(sres["found_input"])[:400], (sres.get("observed") or "")[:120]))
                     nviol += 1
                     continue
-            lines.append("VIOLATION property=%s replay=%s obligation=%s solver-model-did-not-replay no-failing-input-found" % (
-                prop, path, o["id"]))
+            why = ("syntactic-obligation-failed: " + str(o.get("detail"))[:300].replace("\n", " ")) if o.get("solver") == "syntactic" \
+                else "solver-model-did-not-replay"
+            lines.append("VIOLATION property=%s replay=%s obligation=%s %s no-failing-input-found" % (
+                prop, path, o["id"], why))
             nviol += 1
         else:
             errors.append("replay harness error for %s: %s" % (o["id"], json.dumps(res)[:500]))
